@@ -35,8 +35,9 @@ LEVEL_TEXT = ("Proof (Coq, no axioms) about the token-level model of delphin/cod
               "computation behind the status markers) are tied to the code by kernel-checked correspondence on the "
               "real lexer's tokens; text-level round trips, stability, indentation, lists, EDS-JSON and EDS-PENMAN "
               "are checked on the implementation by the oracle.")
-LEVEL_NOTE = ("Partial: lexer regular expressions and white space are oracles; EDS-JSON and EDS-PENMAN are "
-              "oracle-checked, not modelled.")
+LEVEL_NOTE = ("Partial: lexer regular expressions and white space are oracles; EDS-PENMAN is oracle-checked, not "
+              "modelled; EDS-JSON is modelled at the level of the JSON value incl. the re-sorting of nodes by span "
+              "(json.dumps/loads are oracles).")
 TECHNIQUE = "Coq proof (token-level decode-of-encode incl. top lookahead) + kernel-checked correspondence + round-trip oracle"
 DESIGN_REF = "DESIGN.md section 6, C03"
 
@@ -230,7 +231,13 @@ def observe(c):
             raise ValueError(c["k"])
     except EDSSyntaxError:
         return {"lexerr": True}
-    return {"toks": toks, "dec": decode_tokens(toks)}
+    o = {"toks": toks, "dec": decode_tokens(toks)}
+    if c["k"] == "eds":
+        from delphin.codecs import edsjson
+        x = build(c["e"])
+        d = edsjson.to_dict(x, properties=c["p"], lnk=c["l"])
+        o["json"] = {"d": d, "back": eds_obs(edsjson.from_dict(d))}
+    return o
 
 
 # ------------------------------------------------------------------ oracle
@@ -418,5 +425,9 @@ def coq_case(c, o):
     toks = clist(o["toks"], c_tok)
     dec = app("EDec", toks, "None" if "err" in o["dec"] else "(Some %s)" % clist(o["dec"]["es"], c_veds))
     if c["k"] == "eds":
-        return [app("EEnc", cbool(c["p"]), cbool(c["l"]), cbool(c["st"]), c_veds(c["e"]), "(Some %s)" % toks), dec]
+        out = [app("EEnc", cbool(c["p"]), cbool(c["l"]), cbool(c["st"]), c_veds(c["e"]), "(Some %s)" % toks), dec]
+        if "json" in o:
+            out.append(app("EJson", cbool(c["p"]), cbool(c["l"]), c_veds(c["e"]), c01.c_jv(o["json"]["d"]),
+                           c_veds(o["json"]["back"])))
+        return out
     return dec
